@@ -20,6 +20,7 @@ ID = "C14"
 LEVEL = "fault_enumeration"
 DESIGN_REF = "5/C14, 4.2"
 TECHNIQUE = "property-based fault injection: generated failing job subsets x generated completion orders"
+WALL = {"quick": 120, "thorough": 1500}
 RULE = (
     "cases = (workflow program without nested workflows in the region where pydra agrees with the "
     "reference, non-empty subset of its jobs made to raise, completion-order choice list) under the "
@@ -184,4 +185,4 @@ def run(sh):
             sh.record_case(case, True, labels=["independent_job_pending_at_failure"])
             sh.evaluations -= 1
 
-    sh.given(cases(), body, sh.budget(96, 1600), tag="faults")
+    sh.given(cases(), body, sh.budget(64, 1600), tag="faults")
